@@ -15,13 +15,39 @@ VERIF = os.path.dirname(HERE)
 sys.path.insert(0, VERIF)
 
 
+def idlest_cpu(allcpus):
+    """the allowed CPU that did least in the last tenth of a second (sharing one with a busy process makes every hand-off wait
+    for a time slice); falls back to a choice by process id"""
+    import time
+
+    def busy():
+        out = {}
+        with open("/proc/stat") as f:
+            for line in f:
+                if line.startswith("cpu") and line[3].isdigit():
+                    p = line.split()
+                    v = [int(x) for x in p[1:9]]
+                    out[int(p[0][3:])] = sum(v) - v[3] - v[4]        # everything but idle and iowait
+        return out
+    try:
+        a = busy()
+        time.sleep(0.1)
+        b = busy()
+        load = sorted((b[c] - a[c], (c + os.getpid()) % len(allcpus), c) for c in allcpus if c in a and c in b)
+        if load:
+            return load[0][2]
+    except (OSError, ValueError, IndexError):
+        pass
+    return allcpus[os.getpid() % len(allcpus)]
+
+
 def pin_cpu():
     """only one harness thread runs at a time (deterministic scheduler); hand-offs are ~10x cheaper when all threads
     share one CPU.  TLC subprocesses get the full CPU set back (harness.tlc)."""
     try:
         allcpus = sorted(os.sched_getaffinity(0))
         os.environ["VERIF_ALLCPUS"] = ",".join(map(str, allcpus))
-        os.sched_setaffinity(0, {allcpus[os.getpid() % len(allcpus)]})
+        os.sched_setaffinity(0, {idlest_cpu(allcpus)})
     except (AttributeError, OSError):
         pass
 
